@@ -566,6 +566,9 @@ def _check_result(run, drv, pend, res, case, produced_by_library, tmp):
         else:
             if type(loaded).__name__ != cls:
                 run.oracle_failure(case, f"class {cls} loaded back as {type(loaded).__name__}")
+            elif type(loaded) is not type(res):
+                run.oracle_failure(case, f"class {type(res).__module__}.{cls} loaded back as ANOTHER class of the same name: "
+                                         f"{type(loaded).__module__}.{type(loaded).__name__}")
             for f in FIELDS:
                 got = py_norm(getattr(loaded, f), td=True)
                 if f == "test_distribution":
@@ -1195,6 +1198,7 @@ def run(run, rng, tier):
                 if f.endswith(".json"):
                     replay(run, json.load(open(os.path.join(cdir, f))), _ctx=(drv, pend, tmp))
         classes = check_tables(run, drv, pend)
+        c18_calls.define_user_classes()      # (j) same-name classes of the calling program exist during the whole run
         c18_calls.check_producers(run, classes, extract_tables()[1])
         # 1. every evaluation function on generated inputs
         reps = 60 if thorough else 10
